@@ -27,7 +27,7 @@ def make_scratch(patch, tag=None):
 
 
 def run_check(prop, repo, tier="quick"):
-    env = dict(os.environ, VERIF_REPO=repo, VERIF_EVIDENCE_DIR=os.path.join(repo, ".evidence"))
+    env = dict(os.environ, VERIF_REPO=repo, VERIF_EVIDENCE_DIR=repo.rstrip("/") + ".evidence")
     r = subprocess.run([os.path.join(VERIF, "vcheck"), prop, tier], cwd=VERIF, env=env, capture_output=True, text=True)
     return r.returncode, r.stdout + r.stderr
 
@@ -50,6 +50,7 @@ def main():
     finally:
         drop_facts(dst)
         shutil.rmtree(dst, ignore_errors=True)
+        shutil.rmtree(dst.rstrip("/") + ".evidence", ignore_errors=True)
     print(out)
     detected = rc == 1 and "VIOLATION property=%s" % prop in out and (expect is None or expect in out)
     print("MUTANT %s: %s (exit %d)" % (os.path.basename(patch), "DETECTED" if detected else "MISSED", rc))
